@@ -8,7 +8,7 @@ From Coq Require Import List NArith Bool String.
 Import ListNotations.
 From JR Require Import Conn Conn_Proofs.
 From JRGen Require Extracted.
-From JR Require Skeletons.
+From JR Require Skeletons Conn_Progress.
 Open Scope N_scope.
 
 (* the two repairs the theorems assume are in /repo's source right now *)
@@ -75,6 +75,30 @@ Example c03_ex : exists s,
                        ExecDeleted 3 true; CallRecv 3 false; CallReturn 3 OGenuine] = Some s /\ no_orphan s = true.
 Proof. eexists. split; [vm_compute; reflexivity|reflexivity]. Qed.
 
+(* ---- progress (Conn_Progress.v). The library cannot go on for ever by itself: a measure mu over states (phases of the
+   calls, in-flight entries, the executor's and the loop's hands, the redial state) is strictly decreased by every event
+   the library performs on its own — taking, registering, writing or failing a request, delivering or dropping a response,
+   closeInFlight, the redial's sleep and swap, a caller receiving and returning — so between two inputs of the environment
+   (a new call, a response, a fault, a dial result, the close) at most mu steps happen, for every reachable state. *)
+Theorem c03_internal_steps_decrease : forall s e s',
+  Inv s -> step repaired_c s e = Some s' -> Conn_Progress.internal_in s e = true -> (Conn_Progress.mu s' < Conn_Progress.mu s)%nat.
+Proof. exact Conn_Progress.internal_decreases. Qed.
+
+Theorem c03_no_livelock : forall es s s',
+  Inv s -> Looked s -> Conn_Progress.irun s es = Some s' -> (List.length es + Conn_Progress.mu s' <= Conn_Progress.mu s)%nat.
+Proof. exact Conn_Progress.internal_run_bounded. Qed.
+
+(* and when nothing internal is left to do (closeInFlight apart, which belongs to a fault or to the exit), in EVERY reachable
+   state: each call has returned, or waits — registered in flight under its current attempt, its mailbox empty — for the
+   peer's response, or is a retry-tagged caller that has just taken the connection error and is about to go round its
+   retry loop. No other way of waiting exists: that is "no call hangs". *)
+Theorem c03_quiescent_calls : forall s es id c,
+  run repaired_c init es = Some s -> Conn_Progress.quiet s -> lookup id (calls s) = Some c ->
+  ph c = PDone \/
+  (ph c = PWait /\ mbox c = [] /\ entry_is s id (attempts c) = true) \/
+  (ph c = PRecvd /\ got c = Some OConnErr /\ retry c = true).
+Proof. exact Conn_Progress.quiescent_calls. Qed.
+
 (* the functions this property's model is an abstraction of still have the control / locking / shared-state skeleton the
    model was written against (Skeletons.v, by hand; Extracted.v, regenerated from /repo) *)
 Theorem c03_code_skeletons :
@@ -86,6 +110,9 @@ Theorem c03_code_skeletons :
 Proof. repeat split; reflexivity. Qed.
 
 Print Assumptions c03_code_skeletons.
+Print Assumptions c03_internal_steps_decrease.
+Print Assumptions c03_no_livelock.
+Print Assumptions c03_quiescent_calls.
 Print Assumptions c03_source_facts.
 Print Assumptions c03_no_orphan.
 Print Assumptions c03_window_closed.
